@@ -10,16 +10,21 @@ ASSUMPTIONS = [
     "A-LIB(dataclasses): fields(), generated __init__ and asdict behave as documented",
 ]
 NOT_DECIDED = [
-    "BOUNDED (not proved): from_pb value preservation per (message, model) pair, to_dict/from_dict round trip and the 7-significant-digit float rule "
+    "BOUNDED (not proved): the to_dict/from_dict round trip, the numeric meaning of the 7-significant-digit rule (round7 is an uninterpreted function in the "
+    "from_pb proofs), fields of message type and the hand-written converters (nested models, split uuids, service maps, BluetoothLEAdvertisement.from_pb) "
     "are checked natively on generated messages / sampled float32 bit patterns only (contracts/native_model.py)",
 ]
 BOUNDED = [
     {"function": "aioesphomeapi.util.fix_float_single_double_conversion", "engine": "native enumeration vs decimal oracle", "bound": "20000 seeded float32 bit patterns + ~240 boundary patterns"},
-    {"function": "aioesphomeapi.model.APIModelBase.from_pb/__post_init__/to_dict/from_dict (per concrete model class)", "engine": "native generated messages", "bound": "12 generated valid messages per (message, model) pair incl. unknown enum numbers, unicode, extreme ints"},
+    {"function": "aioesphomeapi.model.APIModelBase.to_dict/from_dict and nested / re-shaping converters (per concrete model class)", "engine": "native generated messages", "bound": "12 generated valid messages per (message, model) pair incl. unknown enum numbers, unicode, extreme ints"},
 ]
 EXPLANATION = ("Schema clauses: ground obligations over model.py (AST) vs api.proto text, complete enumeration (ground/c14_schema.py). "
                "Enum converters: the generic APIIntEnum.convert / convert_list bodies are verified by pyvc once per concrete enum class against the wire enum's numbers "
-               "(convert_list with a loop invariant over the unbounded input list). from_pb/round-trip/float-rounding are bounded stand-ins (listed under 'bounded', not counted).")
+               "(convert_list with a loop invariant over the unbounded input list). "
+               "from_pb: for each of the (wire message, model class) pairs the real APIModelBase.from_pb and __post_init__ bodies are executed symbolically on an arbitrary "
+               "message of that type (field list and converters read from the live dataclass), and one clause per wire field - written from api.proto's field type and the "
+               "property's wording - is discharged: scalars and repeated scalars preserved, enum numbers to their member or None / dropped, floats preserved or round7 of the value; "
+               "no exception may escape. Round trip, float digits and nested converters are bounded stand-ins (listed under 'bounded', not counted).")
 
 
 def wire_enum_values():
@@ -40,26 +45,145 @@ def wire_enum_values():
     return out
 
 
+def _wlit(vals):
+    return "(" + ", ".join(str(v) for v in vals) + ",)"
+
+
 def convert_contract(ename, vals):
+    W = _wlit(vals)
     return Contract(
         MODEL + "APIIntEnum.convert", self_type=MODEL + ename, params={"value": "int"}, result=f"opt[enum[{MODEL}{ename}]]", tags=["C14"], label=ename,
-        setup=lambda eng, st: st.env.f.__setitem__("W", VTuple([VInt(v) for v in vals])),
-        ensures=[("unknown-number-iff-None", "iff(result is None, value not in W)"),
-                 ("known-number-to-its-member", "implies(value in W, result is not None and int(result) == value)")],
+        ensures=[("unknown-number-iff-None", f"iff(result is None, value not in {W})"),
+                 ("known-number-to-its-member", f"implies(value in {W}, result is not None and int(result) == value)")],
     )
 
 
 def convert_list_contract(ename, vals):
+    W = _wlit(vals)
     return Contract(
-        MODEL + "APIIntEnum.convert_list", self_type=MODEL + ename, params={"value": "seq[int]"}, tags=["C14"], label=ename,
-        setup=lambda eng, st: st.env.f.__setitem__("W", VTuple([VInt(v) for v in vals])),
-        ensures=[("known-kept-in-order-unknown-dropped", "result == efilter(value, len(value), W)")],
+        MODEL + "APIIntEnum.convert_list", self_type=MODEL + ename, params={"value": "seq[int]"}, result=f"list[enum[{MODEL}{ename}]]", tags=["C14"], label=ename,
+        ensures=[("known-kept-in-order-unknown-dropped", f"result == efilter(value, len(value), {W})")],
         loops={"loop#1": dict(
             index="_i", types={"ret": f"list[enum[{MODEL}{ename}]]"},
-            invariant=["ret == efilter(value, _i, W)"],
-            entry_hints="unfold(efilter(value, 0, W))",
-            end_hints="unfold(efilter(value, _i, W))")},
+            invariant=[f"ret == efilter(value, _i, {W})"],
+            entry_hints=f"unfold(efilter(value, 0, {W}))",
+            end_hints=f"unfold(efilter(value, _i, {W}))")},
     )
+
+
+SCALARS = {"bool", "string", "bytes", "int32", "int64", "uint32", "uint64", "sint32", "sint64", "fixed32", "fixed64", "sfixed32", "sfixed64"}
+
+
+def from_pb_pairs():
+    """(wire message, model class) pairs, as established (with their evidence) by the schema check ground/c14_schema.py."""
+    import re
+    import ground.c14_schema as gs
+    pairs = set()
+    for o in gs.obligations(source.REPO, None):
+        m = re.search(r"model\.(\w+)/from=(\w+)/", o.id)
+        if m:
+            pairs.add((m.group(2), m.group(1)))
+    return sorted(pairs)
+
+
+def from_pb_contract(proto, wm, mc):
+    """Postcondition of <Model>.from_pb(<wire message>) written from the property and api.proto's field types, one clause per
+    field of the wire message: scalars preserved; enum numbers known to api.proto become the member with that number, unknown ones
+    None (dropped from lists); single-precision floats preserved or presented as round7 of the value.  Fields of message type and
+    the three hand-written converters (split uuids, service maps) are not claimed here (bounded stand-in only)."""
+    import aioesphomeapi.model as M
+    import dataclasses
+    msg = proto.message(wm)
+    K = getattr(M, mc)
+    if msg is None or "from_pb" in K.__dict__ or not dataclasses.is_dataclass(K):
+        return None, []
+    ens, skipped = [], []
+    model_fields = {f.name: f for f in dataclasses.fields(K)}
+    for f in msg.fields:
+        if f.name not in model_fields:
+            continue                      # (the schema check reports name mismatches)
+        conv = model_fields[f.name].metadata.get("converter")
+        special = getattr(conv, "__name__", "") in ("_join_split_uuid", "_convert_homeassistant_service_map", "from_pb") or \
+            (getattr(conv, "__name__", "") == "convert_list" and not (isinstance(getattr(conv, "__self__", None), type) and issubclass(conv.__self__, M.APIIntEnum)))
+        e = proto.enum(f.type)
+        r, d = f"result.{f.name}", f"data.{f.name}"
+        if special or (e is None and f.type not in SCALARS and f.type not in ("float", "double")):
+            skipped.append(f.name)
+            continue
+        if e is not None:
+            W = "(" + ", ".join(str(n) for n in sorted(set(e.numbers()))) + ",)"
+            if f.repeated:
+                ens.append(P("C14", f"field:{f.name}/known-enum-numbers-kept-in-order-unknown-dropped", f"{r} == efilter({d}, len({d}), {W})"))
+            elif any(isinstance(k, type) and issubclass(k, M.APIIntEnum) and k.__name__ in str(model_fields[f.name].type) for k in vars(M).values()):
+                # the model declares the field as an enum: known numbers become the member with that number, unknown ones None
+                ens.append(P("C14", f"field:{f.name}/known-enum-number-to-its-member-unknown-to-None",
+                             f"iff({r} is None, {d} not in {W}) and implies({d} in {W}, is_enum_member({r}) and int({r}) == {d})"))
+            else:
+                ens.append(P("C14", f"field:{f.name}/value-preserved", f"{r} == {d}"))
+        elif f.type == "float":
+            ens.append(P("C14", f"field:{f.name}/float-preserved-or-rounded-to-7-digits", f"{r} == {d} or {r} == round7({d})"))
+        else:
+            ens.append(P("C14", f"field:{f.name}/value-preserved", f"{r} == {d}"))
+    import aioesphomeapi.api_pb2 as pb
+    c = Contract(MODEL + "APIModelBase.from_pb", self_type=MODEL + mc, params={"data": f"msg[aioesphomeapi.api_pb2.{wm}]"}, tags=["C14"], label=f"{mc}<-{wm}",
+                 ensures=ens or [("total", "True")])
+    # as a callee (a nested model built by a converter of the model under proof) from_pb is opaque and assumed total
+    c.model = lambda eng_, st, fv, args, kwargs: ok(st, VObj(z3.Const(fresh_name("nested_model"), ObjS), "Any"))
+    c.model_on_recursion = True       # every model class shares the one function APIModelBase.from_pb: a nested call is not a recursion of the proof
+    return c, skipped
+
+
+def P(tag, name, text):
+    from pyvc.contracts import Clause
+    return Clause(name, text, "property", [tag])
+
+
+round7_f = z3.Function("round7", z3.RealSort(), z3.RealSort())
+
+
+def install_from_pb(eng, wire):
+    """Callee side of from_pb: the enum converters by their verified contracts (picked by the enum class), the float rounding
+    by an assumed contract (its numeric meaning is the bounded stand-in's subject)."""
+    from pyvc.contracts import apply_contract
+    names = eng.hooks.setdefault("names", {})
+    names["round7"] = VFunc("builtin", name="round7", impl=lambda e, s, a, k: ok(s, VReal(round7_f(as_real(a[0])))))
+    from pyvc.builtins import typeof_f, cls_code
+    names["is_enum_member"] = VFunc("builtin", name="is_enum_member", impl=lambda e, s, a, k: ok(s, VBool(isinstance(a[0], VEnum) or (isinstance(a[0], VUnion) and all(isinstance(x, (VEnum, VNoneT)) for _, x in a[0].alts)))))
+    names["exact_type"] = VFunc("builtin", name="exact_type", impl=lambda e, s, a, k: ok(s, VBool(typeof_f(a[0].e) == cls_code(a[1].py))))
+    eng.contracts["aioesphomeapi.util.fix_float_single_double_conversion"] = Contract(
+        "aioesphomeapi.util.fix_float_single_double_conversion", params={"value": "real"}, result="real", ensures=["result == round7(value)"])
+    for meth, mk_ in (("convert", convert_contract), ("convert_list", convert_list_contract)):
+        d = Contract(MODEL + "APIIntEnum." + meth)
+
+        def model(eng_, st, fv, args, kwargs, mk_=mk_):
+            k = args[0]
+            ename = k.py.__name__ if isinstance(k, VClass) else None
+            if ename in wire:
+                return apply_contract(eng_, mk_(ename, wire[ename]), fv, args, kwargs, st)
+            return eng_.inline_call(fv, args, kwargs, st)
+        d.model = model
+        eng.contracts[d.target] = d
+    # converters that build nested models or re-shape values (lists of sub-messages, split uuids, service maps): here opaque and assumed
+    # total; what they return is the bounded stand-in's subject (contracts/native_model.py)
+    import aioesphomeapi.model as M
+    import dataclasses as _dc
+    opaque = set()
+    for k in vars(M).values():
+        if isinstance(k, type) and _dc.is_dataclass(k):
+            for f in _dc.fields(k):
+                conv = f.metadata.get("converter")
+                fn = getattr(conv, "__func__", conv)
+                if conv is None or conv is list or getattr(conv, "__name__", "") == "fix_float_single_double_conversion":
+                    continue
+                if isinstance(getattr(conv, "__self__", None), type) and issubclass(conv.__self__, M.APIIntEnum):
+                    continue
+                if hasattr(fn, "__qualname__") and getattr(fn, "__module__", "") == M.__name__ and fn.__qualname__ != "APIModelBase.from_pb":
+                    opaque.add(M.__name__ + "." + fn.__qualname__)
+    for tgt in sorted(opaque):
+        d = Contract(tgt)
+        d.model = lambda eng_, st, fv, args, kwargs: ok(st, VObj(z3.Const(fresh_name("converted"), ObjS), "Any"))
+        eng.contracts[tgt] = d
+        eng.assumptions_used.add(f"assumed total, result not claimed: {tgt} (nested / re-shaping converter; bounded stand-in only)")
 
 
 def targets(eng):
@@ -67,9 +191,23 @@ def targets(eng):
     register_specs(eng, "specs.model")
     import ground.c14_schema as g
     ts = [ground_target("ground:schema", lambda: g.obligations(source.REPO, None), functions=["aioesphomeapi.model (enum classes, dataclass fields)", "aioesphomeapi.model_conversions (tables)"])]
-    for ename, vals in wire_enum_values().items():
+    wire = wire_enum_values()
+    for ename, vals in wire.items():
         ts.append(contract_target(convert_contract(ename, vals)))
         ts.append(contract_target(convert_list_contract(ename, vals)))
+    install_from_pb(eng, wire)
+    import os
+    from ground.protoparse import parse_proto
+    proto = parse_proto(os.path.join(source.REPO, "aioesphomeapi", "api.proto"))
+    for wm, mc in from_pb_pairs():
+        c, skipped = from_pb_contract(proto, wm, mc)
+        if c is None:
+            NOT_DECIDED.append(f"{mc}.from_pb({wm}): hand-written from_pb, bounded stand-in only")
+            continue
+        if skipped:
+            NOT_DECIDED.append(f"{mc}.from_pb({wm}): fields {', '.join(skipped)} (message-typed or hand-written converter) are covered by the bounded stand-in only")
+        import contracts.native_model as nm_
+        ts.append(contract_target(c, replay=nm_.replay_from_pb(wm, mc)))
     import contracts.native_model as nm
 
     def bounded_float():
